@@ -351,6 +351,9 @@ class CompiledSelector:
         self.code = None
         self.ns = {func.__name__: func for func in FUNCTION_WHITELIST}
         self.ns["net"] = net
+        # the other whitelisted field types, resolved like the interpreted engine does: string('x'), varint(3), ...
+        for root in WHITELIST_TREE:
+            self.ns.setdefault(root, getattr(dynamic_fieldtype, root))
 
         if expression:
             self.code = compile(
